@@ -41,6 +41,10 @@ BODIES = {
     "empty-name": [("ifmax", None, "zero", ["route"]), ("ifmax", "", "zero", ["route"]), ("ifmax", "b", "scalar", ["route"]), ("ifmax", None, "zero", [])],
     "badcond-after": [("ifmax", "k", "zero", ["route"]), ("ifmax", None, "nonscalar", ["route"])],
     "nonroute": [("ifmax", None, "zero", ["route", "nonroute"])],
+    "raise-base-exception": [("ifmax", None, "zero", ["route"]), ("raise-base",)],
+    "raise-base-exception-with-free": [("free",), ("raise-base",)],
+    "named-nonroute-caught": [("ifmax", "first", "zero", ["route"]), ("ifmax-caught", "oops"), ("ifmax", "last", "scalar", ["route"])],
+    "named-nonroute-caught-first": [("ifmax-caught", "a"), ("ifmax", "a", "zero", ["route"]), ("ifmax", None, "zero", ["route"])],
     "failbuild": [("ifmax", None, "zero", ["failfixed"])],
     "failbuild-after": [("ifmax", "u", "zero", ["route"]), ("ifmax", None, "zero", ["route", "failfixed"])],
 }
@@ -58,9 +62,9 @@ def coq_body(body):
             out.append(f"(SIfmax {nm} {cd} {ef})")
         elif s[0] == "free":
             out.append("SFree")
-        elif s[0] == "raise":
-            out.append("SRaise")
-        elif s[0] in ("nested-caught", "failed-route-caught"):
+        elif s[0] in ("raise", "raise-base"):
+            out.append("SRaise")          # any exception leaving the body, also one that is not an Exception subclass
+        elif s[0] in ("nested-caught", "failed-route-caught", "ifmax-caught"):
             out.append("SNestedCaught")      # a statement whose error the body catches: nothing changes, the block goes on
         else:
             out.append(f"(SNested {coq_body(s[1])})")
@@ -75,6 +79,10 @@ def coq_event(ev, bodies):
 
 class Boom(Exception):
     pass
+
+
+class Halt(BaseException):
+    """Leaves a block like KeyboardInterrupt / SystemExit / GeneratorExit do: not an Exception subclass."""
 
 
 def run(rep, tier, rng):
@@ -92,7 +100,7 @@ def run(rep, tier, rng):
             return "(Some ASelError)"
         if isinstance(e, SpaTypeError):
             return "(Some ATypeError)"
-        if isinstance(e, Boom):
+        if isinstance(e, (Boom, Halt)):
             return "(Some AOtherError)"
         return "(Some ABuildError)"
 
@@ -103,6 +111,7 @@ def run(rep, tier, rng):
             s32 = spa.State(32)
             sc = spa.Scalar()
             inside_flag = [False]
+            rejected_names = []
 
             def nconn():
                 return len(net.all_connections)
@@ -142,6 +151,16 @@ def run(rep, tier, rng):
                             inside_flag[0] = True
                     elif st[0] == "raise":
                         raise Boom()
+                    elif st[0] == "raise-base":
+                        raise Halt()
+                    elif st[0] == "ifmax-caught":
+                        # a named ifmax whose effect is not a routing statement; the body handles the error and goes on:
+                        # nothing of the rejected call may remain (its name in particular)
+                        rejected_names.append(st[1])
+                        try:
+                            spa.ifmax(st[1], 0.5, s1 * s2)
+                        except SpaActionSelectionError:
+                            pass
                     elif st[0] == "failed-route-caught":
                         try:
                             s1 >> s32          # 16-d into 32-d: type inference fails, handled by the body
@@ -159,6 +178,7 @@ def run(rep, tier, rng):
 
             for ev in hist:
                 inside_flag[0] = False
+                del rejected_names[:]
                 err, blk, dconns = None, None, 0
                 try:
                     if ev[0] == "block":
@@ -170,7 +190,7 @@ def run(rep, tier, rng):
                         dconns = nconn() - before
                     else:
                         spa.ifmax(0, s1 >> s2)
-                except Exception as e:  # noqa
+                except (Exception, Halt) as e:  # noqa
                     err = e
                 at_rest = ActionSelection.active is None and ModuleInput.routed_mode is False and len(RoutedConnection.free_floating) == 0
                 if ev[0] == "ifmax-outside":
@@ -182,8 +202,13 @@ def run(rep, tier, rng):
                     ks = list(blk.keys())
                     keys = c.lst([f"(KName {c.s(k)})" if isinstance(k, str) else f"(KPos {int(k)})" for k in ks])
                     try:
-                        pos_ok = all(blk[i] is blk._utilities[i] for i in range(len(blk)))
+                        import numpy as _np
+                        pos_ok = all(blk[i] is blk._utilities[i] for i in range(len(blk))) and \
+                            all(blk[_np.int64(i)] is blk._utilities[i] and blk[_np.int32(i)] is blk._utilities[i] for i in range(len(blk))) and \
+                            all(blk[-1 - i] is blk._utilities[len(blk) - 1 - i] for i in range(len(blk)))
                         key_ok = len(ks) == len(blk) and all(blk[k] is blk._utilities[i] for i, k in enumerate(ks))
+                        # membership agrees with keys(): a name whose ifmax call was rejected is not retrievable
+                        key_ok = key_ok and all((nm_ in blk) == (nm_ in ks) for nm_ in rejected_names + ["no-such-action"])
                         getok = pos_ok and key_ok
                     except Exception:  # noqa
                         getok = False
